@@ -648,6 +648,38 @@ Proof.
     + rewrite B3, (Hb1 BETFEE) by (unfold BETFEE; lia). lia.
 Qed.
 
+(* one iteration of the bet end blocker: both states it can hand to the next iteration satisfy the invariant
+   (pending bets left: the market stays at the head of the queue; none left: the book is marked resolved and the
+   market moves to the order-book queue) *)
+Lemma bet_iter_inv s m q x ids x1 bk1 subs1 sidx1 cnt pend :
+  inv s -> c_mqueue s = m :: q -> get_ms s m = Some x ->
+  settle_bets ids x (c_bank s) (c_subs s) (c_height s) (c_settledix s) 0 = Some (x1, bk1, subs1, sidx1, cnt) ->
+  inv (chain_upd (with_subs s subs1) bk1 (set_ms_list (c_ms s) m x1) (m :: q) (c_bqueue s)
+                 (c_betcnt s) (c_uid2id s) sidx1 (c_grants s)) /\
+  inv (chain_upd (with_subs s subs1) bk1
+                 (set_ms_list (c_ms s) m (mstate_upd x1 (ms_mkt x1) (set_status (ms_book x1) BK_RESOLVED) (ms_bets x1)
+                                                     pend (ms_deps x1) (ms_wds x1)))
+                 (remove_uid m (m :: q)) (c_bqueue s ++ [m]) (c_betcnt s) (c_uid2id s) sidx1 (c_grants s)).
+Proof.
+  intros Hinv EQ Hg ES.
+  assert (Hmin : In m (c_mqueue s)) by (rewrite EQ; left; reflexivity).
+  destruct (i_mq s Hinv _ Hmin) as (x0 & Hg0 & Hres & Hact). rewrite Hg in Hg0. inv Hg0.
+  pose proof (i_minv s Hinv _ (get_ms_in _ _ _ Hg)) as Hx. cbn [snd] in Hx.
+  destruct (settle_bets_delta _ _ _ _ _ _ _ _ _ _ _ _ ES Hx Hact (i_subs s Hinv)) as (Hx1 & Hact1 & Hm1 & Hs1 & B1 & B2 & B3).
+  pose proof (i_mq_nodup s Hinv) as Hnd. rewrite EQ in Hnd. inversion Hnd as [|? ? Hnotin Hndq]; subst.
+  split.
+  - eapply inv_upd_market; try eassumption.
+    + intros m0 Hin _. rewrite EQ. exact Hin.
+    + intros _. split; [rewrite Hm1; exact Hres|exact Hact1].
+  - eapply inv_upd_market; try eassumption.
+    + destruct Hx1 as [N U P O C B A S]. constructor; cbn [ms_book ms_mkt ms_bets mstate_upd set_status bk_status bk_parts book_upd]; try assumption.
+      * intros Habs. discriminate Habs.
+      * intros Hai. exfalso. rewrite Hm1 in Hai. exact (ai_not_res _ Hai Hres).
+    + unfold remove_uid. cbn [remove_first]. rewrite Z.eqb_refl. exact Hndq.
+    + unfold remove_uid. cbn [remove_first]. rewrite Z.eqb_refl. intros m0 Hin _. rewrite EQ. right. exact Hin.
+    + unfold remove_uid. cbn [remove_first]. rewrite Z.eqb_refl. intros Hin. contradiction.
+Qed.
+
 Lemma bet_endblock_inv fuel : forall s n s', bet_endblock fuel s n = Some s' -> inv s -> inv s'.
 Proof.
   induction fuel as [|f IH]; intros s n s' H Hinv; cbn [bet_endblock] in H.
@@ -656,25 +688,10 @@ Proof.
     destruct (c_mqueue s) as [|m q] eqn:EQ; [inv H; exact Hinv|].
     destruct (get_ms s m) as [x|] eqn:Hg; [|discriminate].
     destruct (settle_bets _ x (c_bank s) (c_subs s) (c_height s) (c_settledix s) 0) as [[[[[x1 bk1] subs1] sidx1] cnt]|] eqn:ES; [|discriminate].
-    assert (Hmin : In m (c_mqueue s)) by (rewrite EQ; left; reflexivity).
-    destruct (i_mq s Hinv _ Hmin) as (x0 & Hg0 & Hres & Hact). rewrite Hg in Hg0. inv Hg0.
-    pose proof (i_minv s Hinv _ (get_ms_in _ _ _ Hg)) as Hx. cbn [snd] in Hx.
-    destruct (settle_bets_delta _ _ _ _ _ _ _ _ _ _ _ _ ES Hx Hact (i_subs s Hinv)) as (Hx1 & Hact1 & Hm1 & Hs1 & B1 & B2 & B3).
-    pose proof (i_mq_nodup s Hinv) as Hnd. rewrite EQ in Hnd. inversion Hnd as [|? ? Hnotin Hndq]; subst.
     destruct (ms_pending x1) eqn:EP.
     + destruct (negb (bk_status (ms_book x1) =? BK_ACTIVE)); [discriminate|].
-      eapply IH; [exact H|].
-      eapply inv_upd_market; try eassumption.
-      * destruct Hx1 as [N U P O C B A S]. constructor; cbn [ms_book ms_mkt ms_bets mstate_upd set_status bk_status bk_parts book_upd]; try assumption.
-        -- intros Habs. discriminate Habs.
-        -- intros Hai. exfalso. rewrite Hm1 in Hai. exact (ai_not_res _ Hai Hres).
-      * unfold remove_uid. cbn [remove_first]. rewrite Z.eqb_refl. exact Hndq.
-      * unfold remove_uid. cbn [remove_first]. rewrite Z.eqb_refl. intros m0 Hin _. rewrite EQ. right. exact Hin.
-      * unfold remove_uid. cbn [remove_first]. rewrite Z.eqb_refl. intros Hin. contradiction.
-    + eapply IH; [exact H|].
-      eapply inv_upd_market; try eassumption.
-      * intros m0 Hin _. rewrite EQ. exact Hin.
-      * intros _. split; [rewrite Hm1; exact Hres|exact Hact1].
+      eapply IH; [exact H|]. exact (proj2 (bet_iter_inv _ _ _ _ _ _ _ _ _ _ [] Hinv EQ Hg ES)).
+    + eapply IH; [exact H|]. exact (proj1 (bet_iter_inv _ _ _ _ _ _ _ _ _ _ [] Hinv EQ Hg ES)).
 Qed.
 
 (* ---- the order-book end blocker -------------------------------------------------------------------------------------- *)
@@ -698,6 +715,42 @@ Lemma map_eq_forall {A B} (f : A -> B) (P : B -> Prop) l l' : map f l' = map f l
   (forall q, In q l -> P (f q)) -> forall q', In q' l' -> P (f q').
 Proof. intros H Hl q' Hq'. destruct (map_eq_in _ _ _ _ H Hq') as (q & Hq & E). rewrite <- E. apply Hl. exact Hq. Qed.
 
+(* one iteration of the order-book end blocker *)
+Lemma ob_iter_inv s m x limit alls cnt ps effs bk1 subs1 bq :
+  inv s -> get_ms s m = Some x -> bk_status (ms_book x) = BK_RESOLVED ->
+  batch_parts (bk_parts (ms_book x)) (k_status (ms_mkt x)) (k_creator (ms_mkt x)) limit 0 = Some (alls, cnt, ps, effs) ->
+  apply_effects (c_bank s) (c_subs s) effs = Some (bk1, subs1) ->
+  inv (chain_upd (with_subs s subs1) bk1
+        (set_ms_list (c_ms s) m
+           (mstate_upd x (ms_mkt x)
+              (book_upd (ms_book x) (if alls then BK_SETTLED else bk_status (ms_book x)) (bk_partcnt (ms_book x)) (bk_queues (ms_book x)) ps
+                        (bk_expo (ms_book x)) (bk_expo_ix (ms_book x)) (bk_hist (ms_book x)) (bk_pairs (ms_book x)))
+              (ms_bets x) (ms_pending x) (ms_deps x) (ms_wds x)))
+        (c_mqueue s) bq (c_betcnt s) (c_uid2id s) (c_settledix s) (c_grants s)).
+Proof.
+  intros Hinv Hg ER EB EA.
+  pose proof (i_minv s Hinv _ (get_ms_in _ _ _ Hg)) as Hx. cbn [snd] in Hx.
+  destruct (apply_effects_custody _ _ _ _ _ (i_subs s Hinv) EA) as [Hs1 Hb1].
+  assert (Hprof : k_status (ms_mkt x) = MK_DECLARED \/ forall p, In p (bk_parts (ms_book x)) -> p_profit p = 0).
+  { destruct (Z.eq_dec (k_status (ms_mkt x)) MK_DECLARED) as [E|E]; [left; exact E|right; apply (mi_profit _ Hx E)]. }
+  destruct (batch_parts_delta _ _ _ _ _ _ _ _ _ EB (mi_owner _ Hx) (mi_creator _ Hx) Hprof) as (D1 & D2 & D3 & D4 & D5).
+  pose proof (batch_parts_profit _ _ _ _ _ _ _ _ _ EB) as D6.
+  eapply inv_upd_market; try eassumption.
+  + destruct Hx as [N U P O C B A S].
+    constructor; cbn [ms_book ms_mkt ms_bets mstate_upd bk_status bk_parts book_upd]; try assumption.
+    * rewrite D4. exact N.
+    * intros Habs. exfalso. destruct alls; [discriminate Habs|]. rewrite ER in Habs. discriminate Habs.
+    * intros Hnd. apply (map_eq_forall p_profit (fun v => v = 0) _ _ D6). intros q Hq. apply (P Hnd q Hq).
+    * intros Hai. pose proof (A Hai) as Habs. rewrite ER in Habs. discriminate Habs.
+  + rewrite (Hb1 POOL) by (unfold POOL; lia). unfold owed_pool, open_amt. rewrite !pool_parts_eq. cbn [ms_book ms_bets mstate_upd bk_parts book_upd]. lia.
+  + rewrite (Hb1 HOUSEFEE) by (unfold HOUSEFEE; lia). unfold owed_hfee. rewrite !fee_parts_eq. cbn [ms_book ms_bets mstate_upd bk_parts book_upd]. lia.
+  + rewrite (Hb1 BETFEE) by (unfold BETFEE; lia). unfold owed_bfee, open_fee. cbn [ms_book ms_bets mstate_upd]. lia.
+  + apply (i_mq_nodup s Hinv).
+  + intros m0 Hin _. exact Hin.
+  + intros Hin. exfalso. destruct (i_mq s Hinv _ Hin) as (x1 & Hg1 & _ & Ha). rewrite Hg in Hg1. inv Hg1.
+    rewrite ER in Ha. discriminate Ha.
+Qed.
+
 Lemma ob_endblock_inv fuel : forall s n i s', ob_endblock fuel s n i = Some s' -> inv s -> inv s'.
 Proof.
   induction fuel as [|f IH]; intros s n i s' H Hinv; cbn [ob_endblock] in H.
@@ -708,27 +761,7 @@ Proof.
     destruct (negb (bk_status (ms_book x) =? BK_RESOLVED)) eqn:ER; [discriminate|]. apply negb_false_true, Z.eqb_eq in ER.
     destruct (batch_parts _ _ _ _ _) as [[[[alls cnt] ps] effs]|] eqn:EB; [|discriminate].
     destruct (apply_effects (c_bank s) (c_subs s) effs) as [[bk1 subs1]|] eqn:EA; [|discriminate].
-    pose proof (i_minv s Hinv _ (get_ms_in _ _ _ Hg)) as Hx. cbn [snd] in Hx.
-    destruct (apply_effects_custody _ _ _ _ _ (i_subs s Hinv) EA) as [Hs1 Hb1].
-    assert (Hprof : k_status (ms_mkt x) = MK_DECLARED \/ forall p, In p (bk_parts (ms_book x)) -> p_profit p = 0).
-    { destruct (Z.eq_dec (k_status (ms_mkt x)) MK_DECLARED) as [E|E]; [left; exact E|right; apply (mi_profit _ Hx E)]. }
-    destruct (batch_parts_delta _ _ _ _ _ _ _ _ _ EB (mi_owner _ Hx) (mi_creator _ Hx) Hprof) as (D1 & D2 & D3 & D4 & D5).
-    pose proof (batch_parts_profit _ _ _ _ _ _ _ _ _ EB) as D6.
-    eapply IH; [exact H|].
-    eapply inv_upd_market; try eassumption.
-    + destruct Hx as [N U P O C B A S].
-      constructor; cbn [ms_book ms_mkt ms_bets mstate_upd bk_status bk_parts book_upd]; try assumption.
-      * rewrite D4. exact N.
-      * intros Habs. exfalso. destruct alls; [discriminate Habs|]. rewrite ER in Habs. discriminate Habs.
-      * intros Hnd. apply (map_eq_forall p_profit (fun v => v = 0) _ _ D6). intros q Hq. apply (P Hnd q Hq).
-      * intros Hai. pose proof (A Hai) as Habs. rewrite ER in Habs. discriminate Habs.
-    + rewrite (Hb1 POOL) by (unfold POOL; lia). unfold owed_pool, open_amt. rewrite !pool_parts_eq. cbn [ms_book ms_bets mstate_upd bk_parts book_upd]. lia.
-    + rewrite (Hb1 HOUSEFEE) by (unfold HOUSEFEE; lia). unfold owed_hfee. rewrite !fee_parts_eq. cbn [ms_book ms_bets mstate_upd bk_parts book_upd]. lia.
-    + rewrite (Hb1 BETFEE) by (unfold BETFEE; lia). unfold owed_bfee, open_fee. cbn [ms_book ms_bets mstate_upd]. lia.
-    + apply (i_mq_nodup s Hinv).
-    + intros m0 Hin _. exact Hin.
-    + intros Hin. exfalso. destruct (i_mq s Hinv _ Hin) as (x1 & Hg1 & _ & Ha). rewrite Hg in Hg1. inv Hg1.
-      rewrite ER in Ha. discriminate Ha.
+    eapply IH; [exact H|]. eapply ob_iter_inv; eassumption.
 Qed.
 
 (* ---- the remaining operations ---------------------------------------------------------------------------------------- *)
